@@ -180,6 +180,13 @@ pub fn read_file_with_nul(path: &Path) -> std::io::Result<Vec<u8>> {
         bytes.set_len(size);
     }
     file.read_exact(&mut bytes[..size])?;
+    // Everything downstream treats the text as str without further checks.
+    if std::str::from_utf8(&bytes).is_err() {
+        return Err(std::io::Error::new(
+            std::io::ErrorKind::InvalidData,
+            "file is not valid UTF-8",
+        ));
+    }
     bytes.push(0);
     Ok(bytes)
 }
